@@ -1,7 +1,7 @@
 import IsalVerif.Lemmas.MgrInv
 /-! The `*_ctx_mgr_resubmit` loop never changes what any context settles to, keeps the shape and
     bookkeeping invariants, and hands back only contexts that are out of every lane and no longer
-    PROCESSING. -/
+    PROCESSING; afterwards every PROCESSING context sits in a lane. -/
 namespace IsalVerif.HashMB
 variable {D : Type}
 
@@ -13,41 +13,59 @@ theorem settle_congr_lane (A : Alg D) (x : Ctx D) (hl : x.lane = none) (hc : x.c
 
 /-- what a context handed back by `resubmit` looks like -/
 def Returned (x : Ctx D) : Prop :=
-  x.lane = none ∧ x.processing = false ∧ x.last = false
+  x.lane = none ∧ x.processing = false ∧ x.last = false ∧ x.incoming = []
 
-structure ResubmitPost (A : Alg D) (m m' : M D) (r : Option Cid) : Prop where
+structure ResubmitPost (A : Alg D) (m m' : M D) (r0 r : Option Cid) : Prop where
   settle_eq : ∀ j, settle A (m'.ctxs j) = settle A (m.ctxs j)
   shape : ∀ j, Shape A.B (m'.ctxs j)
   ok : MgrOk m'
   ret : ∀ c, r = some c → Returned (m'.ctxs c)
   err : ∀ j, (m'.ctxs j).error = (m.ctxs j).error
   total : ∀ j, (m'.ctxs j).total = (m.ctxs j).total
+  /-- if every PROCESSING context other than the one handed in is in a lane, then afterwards every
+      PROCESSING context is in a lane -/
+  inflight : (∀ j, (m.ctxs j).processing = true → (m.ctxs j).lane ≠ none ∨ r0 = some j) →
+             ∀ j, (m'.ctxs j).processing = true → (m'.ctxs j).lane ≠ none
+  /-- the loop only ever clears PROCESSING (of the context it hands back) -/
+  proc_mono : ∀ j, (m'.ctxs j).processing = true → (m.ctxs j).processing = true
+  /-- "LAST was requested" (latched or already padded) is never changed -/
+  lc : ∀ j, ((m'.ctxs j).last || (m'.ctxs j).complete) = ((m.ctxs j).last || (m.ctxs j).complete)
+  /-- a context is handed back only if it was PROCESSING -/
+  ret_proc : ∀ c, r = some c → (m.ctxs c).processing = true
 
 theorem resubmit_post (A : Alg D) (hB : 0 < A.B) :
-    ∀ (fuel : Nat) (m : M D) (r : Option Cid),
+    ∀ (fuel : Nat) (m : M D) (r : Option Cid) (res : M D × Option Cid),
+      resubmit A fuel m r = some res →
       MgrOk m → (∀ j, Shape A.B (m.ctxs j)) →
       (∀ c, r = some c → (m.ctxs c).lane = none ∧ (m.ctxs c).processing = true) →
-      ResubmitPost A m (resubmit A fuel m r).1 (resubmit A fuel m r).2 := by
+      ResubmitPost A m res.1 r res.2 := by
+  have triv : ∀ (m : M D), MgrOk m → (∀ j, Shape A.B (m.ctxs j)) → ResubmitPost A m m none none :=
+    fun m hok hs => ⟨fun _ => rfl, hs, hok, fun _ h => (by cases h), fun _ => rfl, fun _ => rfl,
+      fun h j hj => (h j hj).elim id (fun e => by cases e), fun _ h => h, fun _ => rfl,
+      fun _ h => (by cases h)⟩
   intro fuel
   induction fuel with
   | zero =>
-    intro m r hok hs _
-    cases r <;> exact ⟨fun _ => rfl, hs, hok, fun _ h => (by cases h), fun _ => rfl, fun _ => rfl⟩
-  | succ fuel ih =>
-    intro m r hok hs hl
+    intro m r res hres hok hs _
     cases r with
-    | none => exact ⟨fun _ => rfl, hs, hok, fun _ h => (by cases h), fun _ => rfl, fun _ => rfl⟩
+    | none => simp [resubmit] at hres; subst hres; exact triv m hok hs
+    | some c => simp [resubmit] at hres
+  | succ fuel ih =>
+    intro m r res hres hok hs hl
+    cases r with
+    | none => simp [resubmit] at hres; subst hres; exact triv m hok hs
     | some c =>
       obtain ⟨hlc, hpc⟩ := hl c rfl
       have hsc := hs c
       -- helper: finishing with a submit of blocks `bs` for the updated context `x'`
-      have key : ∀ (x' : Ctx D) (bs : List Bytes), x'.lane = none → x'.processing = true →
+      have key : ∀ (x' : Ctx D) (bs : List Bytes),
+          resubmit A fuel (mgrSubmit A.f (setCtx m c x') c bs).1 (mgrSubmit A.f (setCtx m c x') c bs).2 = some res →
+          x'.lane = none → x'.processing = true →
           Shape A.B x' → x'.error = (m.ctxs c).error → x'.total = (m.ctxs c).total →
+          (x'.last || x'.complete) = ((m.ctxs c).last || (m.ctxs c).complete) →
           settle A { x' with lane := some (x'.dig, bs) } = settle A (m.ctxs c) →
-          ResubmitPost A m
-            (resubmit A fuel (mgrSubmit A.f (setCtx m c x') c bs).1 (mgrSubmit A.f (setCtx m c x') c bs).2).1
-            (resubmit A fuel (mgrSubmit A.f (setCtx m c x') c bs).1 (mgrSubmit A.f (setCtx m c x') c bs).2).2 := by
-        intro x' bs hx'l hx'p hx's hx'e hx't hsett
+          ResubmitPost A m res.1 (some c) res.2 := by
+        intro x' bs hrec hx'l hx'p hx's hx'e hx't hx'c hsett
         have hok1 : MgrOk (setCtx m c x') := setCtx_ok m c x' hok hlc hx'l
         have hc1 : ((setCtx m c x').ctxs c) = x' := by simp [setCtx]
         have hs1 : ∀ j, Shape A.B ((setCtx m c x').ctxs j) := by
@@ -63,56 +81,97 @@ theorem resubmit_post (A : Alg D) (hB : 0 < A.B) :
             ((mgrSubmit A.f (setCtx m c x') c bs).1.ctxs r').processing = true :=
           fun r' h => ⟨mgrSubmit_ret A.f _ c bs r' h,
             mgrSubmit_ret_proc A.f _ c bs hok1 (by rw [hc1]; exact hx'l) (by rw [hc1]; exact hx'p) r' h⟩
-        have i := ih _ _ hok2 hs2 hl2
-        refine ⟨fun j => ?_, i.shape, i.ok, i.ret, fun j => ?_, fun j => ?_⟩
+        have i := ih _ _ res hrec hok2 hs2 hl2
+        have hsu := mgrSubmit_sameUser A.f (setCtx m c x') c bs
+        refine ⟨fun j => ?_, i.shape, i.ok, i.ret, fun j => ?_, fun j => ?_, fun hin => ?_, fun j hj => ?_, fun j => ?_,
+          fun c' hc' => ?_⟩
         · rw [i.settle_eq j, mgrSubmit_settle A _ c bs hok1.free_ne]
           by_cases hj : j = c
           · subst hj; simp only [if_true]; rw [hc1]; exact hsett
           · simp [hj, setCtx]
-        · rw [i.err j, (mgrSubmit_sameUser A.f _ c bs j).2.2.2.2.2.2]
+        · rw [i.err j, (hsu j).2.2.2.2.2.2]
           by_cases hj : j = c
           · subst hj; rw [hc1]; exact hx'e
           · simp [setCtx, hj]
-        · rw [i.total j, (mgrSubmit_sameUser A.f _ c bs j).2.2.2.2.1]
+        · rw [i.total j, (hsu j).2.2.2.2.1]
           by_cases hj : j = c
           · subst hj; rw [hc1]; exact hx't
           · simp [setCtx, hj]
+        · apply i.inflight
+          intro j hj
+          apply mgrSubmit_lane A.f _ c bs j hok1.free_ne
+          by_cases hjc : j = c
+          · right; exact hjc
+          · left
+            rw [(hsu j).2.2.2.2.2.1] at hj
+            simp only [setCtx, hjc, if_false] at hj ⊢
+            exact (hin j hj).resolve_right (fun e => hjc (Option.some.inj e).symm)
+        · have := i.proc_mono j hj
+          rw [(hsu j).2.2.2.2.2.1] at this
+          by_cases hjc : j = c
+          · subst hjc; exact hpc
+          · simpa [setCtx, hjc] using this
+        · rw [i.lc j, (hsu j).2.2.2.1, (hsu j).2.2.1]
+          by_cases hjc : j = c
+          · subst hjc; rw [hc1]; exact hx'c
+          · simp [setCtx, hjc]
+        · have := i.ret_proc c' hc'
+          rw [(hsu c').2.2.2.2.2.1] at this
+          by_cases hjc : c' = c
+          · subst hjc; exact hpc
+          · simpa [setCtx, hjc] using this
       -- helper: handing the context back after a context-only update
       have back : ∀ (x' : Ctx D), x'.lane = none → x'.processing = false → x'.last = false →
+          x'.incoming = [] →
           Shape A.B x' → x'.error = (m.ctxs c).error → x'.total = (m.ctxs c).total →
+          (x'.last || x'.complete) = ((m.ctxs c).last || (m.ctxs c).complete) →
           settle A x' = settle A (m.ctxs c) →
-          ResubmitPost A m (setCtx m c x') (some c) := by
-        intro x' hx'l hx'p hx'last hx's hx'e hx't hsett
-        refine ⟨fun j => ?_, fun j => ?_, setCtx_ok m c x' hok hlc hx'l, fun c' hc' => ?_, fun j => ?_, fun j => ?_⟩
+          ResubmitPost A m (setCtx m c x') (some c) (some c) := by
+        intro x' hx'l hx'p hx'last hx'inc hx's hx'e hx't hx'c hsett
+        refine ⟨fun j => ?_, fun j => ?_, setCtx_ok m c x' hok hlc hx'l, fun c' hc' => ?_, fun j => ?_,
+          fun j => ?_, fun hin j hj => ?_, fun j hj => ?_, fun j => ?_, fun c' hc' => (by cases hc'; exact hpc)⟩
         · by_cases hj : j = c
           · subst hj; simpa [setCtx] using hsett
           · simp [setCtx, hj]
         · by_cases hj : j = c
           · subst hj; simpa [setCtx] using hx's
           · simpa [setCtx, hj] using hs j
-        · cases hc'; simp [setCtx, Returned, hx'l, hx'p, hx'last]
+        · cases hc'; simp [setCtx, Returned, hx'l, hx'p, hx'last, hx'inc]
         · by_cases hj : j = c
           · subst hj; simpa [setCtx] using hx'e
           · simp [setCtx, hj]
         · by_cases hj : j = c
           · subst hj; simpa [setCtx] using hx't
           · simp [setCtx, hj]
-      simp only [resubmit]
+        · by_cases hjc : j = c
+          · subst hjc; simp [setCtx, hx'p] at hj
+          · simp only [setCtx, hjc, if_false] at hj ⊢
+            exact (hin j hj).resolve_right (fun e => hjc (Option.some.inj e).symm)
+        · by_cases hjc : j = c
+          · subst hjc; exact hpc
+          · simpa [setCtx, hjc] using hj
+        · by_cases hjc : j = c
+          · subst hjc; simpa [setCtx] using hx'c
+          · simp [setCtx, hjc]
+      simp only [resubmit] at hres
       by_cases hcomp : (m.ctxs c).complete = true
-      · simp only [hcomp, if_true]
+      · simp only [hcomp, if_true, Option.some.injEq] at hres
+        subst hres
         apply back
         · exact hlc
         · rfl
         · rfl
-        · simpa [Shape] using hsc
+        · exact hsc.2.2.1 hcomp
+        · exact ⟨hsc.1, hsc.2.1, fun _ => hsc.2.2.1 hcomp, fun _ => ⟨rfl, hsc.2.2.1 hcomp⟩⟩
         · rfl
         · rfl
+        · simp [hcomp]
         · simp [settle, hcomp, hlc, hpc]
       · have hcf : (m.ctxs c).complete = false := by simpa using hcomp
-        simp only [hcf, Bool.false_eq_true, if_false]
+        simp only [hcf, Bool.false_eq_true, if_false] at hres
         have hsx := settle_congr_lane A (m.ctxs c) hlc hcf
         by_cases hbody : (m.ctxs c).part = [] ∧ (m.ctxs c).incoming ≠ []
-        · simp only [hbody, and_self, if_true, ne_eq, not_false_eq_true]
+        · simp only [hbody, and_self, if_true, ne_eq, not_false_eq_true] at hres
           obtain ⟨hp, hi⟩ := hbody
           -- what absorb computes from an empty partial buffer
           have habs : absorb A.B A.f ⟨(m.ctxs c).dig, (m.ctxs c).part⟩ (m.ctxs c).incoming =
@@ -124,71 +183,54 @@ theorem resubmit_post (A : Alg D) (hB : 0 < A.B) :
             rw [habs] at this; exact this
           by_cases hn : (m.ctxs c).incoming.length / A.B = 0
           · -- fewer than a block: just buffered
-            simp only [hn, ne_eq, not_true_eq_false, if_false, Nat.zero_mul, List.drop_zero]
+            simp only [hn, ne_eq, not_true_eq_false, if_false, Nat.zero_mul, List.drop_zero] at hres
             rw [hn] at habs hdl
             simp only [Nat.zero_mul, List.drop_zero, blocks, List.foldl] at habs hdl
             by_cases hlast : (m.ctxs c).last = true
-            · simp only [hlast, if_true]
-              apply key
-              · exact hlc
-              · exact hpc
-              · exact ⟨hdl, fun _ => rfl⟩
-              · rfl
-              · rfl
+            · simp only [hlast, if_true] at hres
+              refine key _ _ hres hlc hpc ⟨hdl, fun _ => rfl, fun _ => rfl, fun h => ?_⟩ rfl rfl ?_ ?_
+              · simp [hpc] at h
+              · simp [hlast]
               · rw [hsx, habs]; simp [settle, hlast, hpc, pad]
             · have hlf : (m.ctxs c).last = false := by simpa using hlast
-              simp only [hlf, Bool.false_eq_true, if_false]
-              apply back
-              · exact hlc
-              · rfl
-              · first | rfl | exact hlf
-              · exact ⟨hdl, fun _ => rfl⟩
-              · rfl
-              · rfl
-              · rw [hsx, habs]
-                simp only [settle, hlc, hcf, hlf, Bool.false_eq_true, if_false]
-                rw [absorb_nil A.B A.f _ hdl]
-          · simp only [hn, ne_eq, not_false_eq_true, if_true]
-            apply key
-            · exact hlc
-            · exact hpc
-            · exact ⟨hdl, fun _ => rfl⟩
-            · rfl
-            · rfl
+              simp only [hlf, Bool.false_eq_true, if_false, Option.some.injEq] at hres
+              subst hres
+              refine back _ hlc rfl rfl rfl ⟨hdl, fun _ => rfl, fun _ => rfl, fun _ => ⟨rfl, rfl⟩⟩ rfl rfl ?_ ?_
+              · simp [hlf, hcf]
+              rw [hsx, habs]
+              simp only [settle, hlc, hcf, hlf, Bool.false_eq_true, if_false]
+              rw [absorb_nil A.B A.f _ hdl]
+          · simp only [hn, ne_eq, not_false_eq_true, if_true] at hres
+            refine key _ _ hres hlc hpc ⟨hdl, fun _ => rfl, fun _ => rfl, fun h => ?_⟩ rfl rfl ?_ ?_
+            · simp [hpc] at h
+            · simp [hcf]
             · rw [hsx, habs]
               simp only [settle, hcf, Bool.false_eq_true, if_false]
               rw [absorb_nil A.B A.f _ hdl]
-        · simp only [hbody, if_false]
+        · simp only [hbody, if_false] at hres
           -- nothing to move: either the partial buffer holds the tail, or there is no incoming data
           have hinc : (m.ctxs c).incoming = [] := by
             by_cases hp : (m.ctxs c).part = []
             · by_cases hi : (m.ctxs c).incoming = []
               · exact hi
               · exact absurd ⟨hp, hi⟩ hbody
-            · exact hsc.2 hp
+            · exact hsc.2.1 hp
           have habs : absorb A.B A.f ⟨(m.ctxs c).dig, (m.ctxs c).part⟩ (m.ctxs c).incoming =
               ⟨(m.ctxs c).dig, (m.ctxs c).part⟩ := by
             rw [hinc]; exact absorb_nil A.B A.f _ hsc.1
           by_cases hlast : (m.ctxs c).last = true
-          · simp only [hlast, if_true]
-            apply key
-            · exact hlc
-            · exact hpc
-            · exact hsc
-            · rfl
-            · rfl
+          · simp only [hlast, if_true] at hres
+            refine key _ _ hres hlc hpc ⟨hsc.1, fun _ => hinc, fun _ => hinc, fun h => ?_⟩ rfl rfl ?_ ?_
+            · simp [hpc] at h
+            · simp [hlast]
             · rw [hsx, habs]; simp [settle, hlast, hpc, pad]
           · have hlf : (m.ctxs c).last = false := by simpa using hlast
-            simp only [hlf, Bool.false_eq_true, if_false]
-            apply back
-            · exact hlc
-            · rfl
-            · first | rfl | exact hlf
-            · exact hsc
-            · rfl
-            · rfl
-            · rw [hsx, habs]
-              simp only [settle, hlc, hcf, hlf, Bool.false_eq_true, if_false]
-              exact habs
+            simp only [hlf, Bool.false_eq_true, if_false, Option.some.injEq] at hres
+            subst hres
+            refine back _ hlc rfl (by first | rfl | exact hlf) hinc ⟨hsc.1, fun _ => hinc, fun _ => hinc, fun _ => ⟨by first | rfl | exact hlf, hinc⟩⟩ rfl rfl ?_ ?_
+            · simp [hlf, hcf]
+            rw [hsx, habs]
+            simp only [settle, hlc, hcf, hlf, Bool.false_eq_true, if_false]
+            exact habs
 
 end IsalVerif.HashMB
